@@ -108,7 +108,9 @@ def boolness(fn, e, depth=4, bound=None):
         return "bool" if ks == {"bool"} else ("value" if "value" in ks else "unknown")
     if isinstance(e, ast.Attribute):
         return "value" if e.attr in ("charges", "positions", "masses", "atom_types", "elements", "cell", "bonds", "angles", "dihedrals",
-                                     "impropers", "atom_type_masses", "atom_type_labels", "atom_type_elements") else "unknown"
+                                     "impropers", "atom_type_masses", "atom_type_labels", "atom_type_elements", "groups", "bond_types", "angle_types",
+                                     "dihedral_types", "improper_types", "extra_atom_fields", "extra_bond_fields", "extra_angle_fields",
+                                     "extra_dihedral_fields", "extra_improper_fields") else "unknown"
     if isinstance(e, ast.Subscript):
         return boolness(fn, e.value, depth, bound)
     return "unknown"
@@ -219,6 +221,20 @@ def G2_presence_tests(repo, clause, scope=ALL_LIB, min_params=0):
                               "but `%s` uses its TRUTH VALUE: the legitimate value 0 is treated as 'not given'" % ast.unparse(hits[0] if isinstance(hits[0], ast.expr) else hits[0].test)[:80]),
                           construct=("def %s(... %s=None ...)" % (fn.name, p)) if not hits else None,
                           slot="none-default:%s" % p, positive=True))
+        # (a0) a NUMERIC parameter (numeric default: a tolerance, a fraction, a count) replaced through `p or <fallback>` / `<x> if p else <y>` used as "was it given":
+        #      the legitimate value 0 / 0.0 is falsy and silently becomes the fallback
+        for p, d in fn.param_defaults().items():
+            if not (isinstance(d, ast.Constant) and isinstance(d.value, (int, float)) and not isinstance(d.value, bool)):
+                continue
+            for bo in [x for x in fn.own_nodes() if isinstance(x, ast.BoolOp) and isinstance(x.op, ast.Or) and isinstance(x.values[0], ast.Name) and x.values[0].id == p]:
+                par = fn.parents.get(bo)
+                if isinstance(par, (ast.If, ast.While, ast.IfExp, ast.Assert, ast.BoolOp, ast.UnaryOp)):
+                    continue
+                n_params += 1
+                obs.append(Ob("G2", clause, fn, bo, False,
+                              "`%s` in %s replaces the numeric parameter `%s` (default %r) by a fallback whenever it is FALSY: the legitimate value 0 is treated as 'not given' "
+                              "(e.g. a tolerance of 0 becomes `%s`)" % (ast.unparse(bo)[:60], fn.qualname, p, d.value, ast.unparse(bo.values[-1])[:30]),
+                              slot="numeric-or-fallback:%s" % p, positive="robust"))
         # (a') locals that hold "an index or None": min(..., default=None) / max(..., default=None) / next(..., None)
         for st in [x for x in fn.own_nodes() if isinstance(x, ast.Assign) and len(x.targets) == 1 and isinstance(x.targets[0], ast.Name) and isinstance(x.value, ast.Call)]:
             c = st.value
@@ -2113,6 +2129,64 @@ def G30_nonzero_rows_with_multiplicity(repo, clause, scope=ALL_LIB):
                               "appears twice in what is built from it - `np.any(mask, axis=...)` or `np.unique` is meant"),
                           slot="nonzero-multiplicity:%s" % fn.qualname, positive="robust"))
     obs.append(Ob("G30", clause, fns[0], fns[0].node, True, "%d functions in scope, %d index lists taken from one axis of a 2-D hit matrix inspected" % (len(fns), n), construct="nonzero inventory", slot="inventory"))
+    return obs
+
+
+def G31_reorder_one_of_parallel_lists(repo, clause, scope=ALL_LIB):
+    """Two lists that receive one entry each in the same block of the same loop are PARALLEL (entry k of one belongs to entry k of the other).  Re-ordering one of them
+    afterwards - `a.sort(...)`, `a.reverse()`, `random.shuffle(a)`, `a = sorted(a)` - without applying the same permutation to the partner silently pairs every entry
+    with another entry's partner (the k-th index tuple with the rotation of a different match)."""
+    obs = []
+    fns = _scope_fns(repo, scope)
+    n = 0
+    for fn in fns:
+        # parallel accumulators: names initialised to an empty list, appended in the same statement list
+        empties = {t.id for st in fn.own_nodes() if isinstance(st, ast.Assign) and isinstance(st.value, ast.List) and not st.value.elts for t in st.targets if isinstance(t, ast.Name)}
+        partners = {}
+        for blk_owner in fn.own_nodes():
+            for fld in ("body", "orelse"):
+                blk = getattr(blk_owner, fld, None)
+                if not isinstance(blk, list):
+                    continue
+                apps = [st.value.func.value.id for st in blk if isinstance(st, ast.Expr) and isinstance(st.value, ast.Call) and isinstance(st.value.func, ast.Attribute)
+                        and st.value.func.attr == "append" and isinstance(st.value.func.value, ast.Name) and st.value.func.value.id in empties]
+                if len(set(apps)) >= 2 and any(isinstance(a_, (ast.For, ast.While)) for a_ in list(fn.ancestors(blk[0])) + [blk_owner]):
+                    for a_ in set(apps):
+                        partners.setdefault(a_, set()).update(set(apps) - {a_})
+        if not partners:
+            continue
+        for st in fn.own_nodes():
+            x = None
+            if isinstance(st, ast.Expr) and isinstance(st.value, ast.Call) and isinstance(st.value.func, ast.Attribute) and st.value.func.attr in ("sort", "reverse") \
+                    and isinstance(st.value.func.value, ast.Name):
+                x = st.value.func.value.id
+            elif isinstance(st, ast.Expr) and isinstance(st.value, ast.Call) and call_name(st.value) == "shuffle" and st.value.args and isinstance(st.value.args[0], ast.Name):
+                x = st.value.args[0].id
+            elif isinstance(st, ast.Assign) and len(st.targets) == 1 and isinstance(st.targets[0], ast.Name) and isinstance(st.value, ast.Call) and call_name(st.value) == "sorted" \
+                    and st.value.args and isinstance(st.value.args[0], ast.Name) and st.value.args[0].id == st.targets[0].id:
+                x = st.targets[0].id
+            if x is None or x not in partners:
+                continue
+            # partners that are still read after this statement and are not re-ordered alongside
+            for y in sorted(partners[x]):
+                later_reads = [r for r in fn.own_nodes() if isinstance(r, ast.Name) and r.id == y and isinstance(r.ctx, ast.Load) and getattr(r, "lineno", 0) > st.lineno]
+                if not later_reads:
+                    continue
+                same_block = fn.parents.get(st)
+                co = False
+                for z in fn.own_nodes():
+                    if z is st or getattr(z, "lineno", 0) < st.lineno - 3 or getattr(z, "lineno", 0) > st.lineno + 3:
+                        continue
+                    if isinstance(z, (ast.Assign, ast.Expr)) and y in {q.id for q in ast.walk(z) if isinstance(q, ast.Name)} and any(
+                            isinstance(q, ast.Call) and call_name(q) in ("sort", "sorted", "reverse", "shuffle", "argsort", "zip") for q in ast.walk(z)):
+                        co = True
+                n += 1
+                obs.append(Ob("G31", clause, fn, st, co,
+                              "`%s` in %s re-orders `%s`, which is filled entry by entry together with `%s`%s" % (
+                                  ast.unparse(st)[:60], fn.qualname, x, y, " (the partner is re-ordered alongside)" if co else
+                                  "; `%s` keeps its order and is still used afterwards, so entry k of one no longer belongs to entry k of the other" % y),
+                              slot="parallel-reorder:%s:%s" % (fn.qualname, x), positive="robust"))
+    obs.append(Ob("G31", clause, fns[0], fns[0].node, True, "%d functions in scope, %d re-orderings of one of two parallel lists inspected" % (len(fns), n), construct="parallel reorder inventory", slot="inventory"))
     return obs
 
 
